@@ -129,11 +129,13 @@ class Vt100Parser:
         flush = False
 
         while True:
-            flush = False
-
             if retry:
+                # (Keep the `flush` flag while we're retrying, so that the
+                # whole buffer gets flushed.)
                 retry = False
             else:
+                flush = False
+
                 # Get next character.
                 c = yield
 
